@@ -199,9 +199,11 @@ func ivlWalk(h *ssa.Function, intvIdx, listIdx int, x ivl, l []ivl) (pieces []iv
 			if PkgPathOf(g) != PkgPathOf(h) {
 				return false
 			}
-			// interval accessors and the constructor are modelled, not followed
+			// interval getters and the constructor are modelled, not followed
 			if g.Signature.Recv() != nil && isIvlType(g.Signature.Recv().Type()) {
-				return false
+				if _, isGetter := GetterOf(g); isGetter {
+					return false
+				}
 			}
 			return NameOf(Origin(g)) != "New"
 		},
@@ -385,7 +387,8 @@ func checkIntervalOps(c *Ctx, rule string) {
 			}
 		}
 		if h == nil {
-			c.Undecide("%s: %s has no per-interval helper (interval, list) -> (pieces, consumed)", rule, op.driver)
+			// no helper to look into: the operator as a whole is decided by the
+			// whole-operator walks
 			continue
 		}
 		nHelpers++
@@ -426,91 +429,7 @@ func checkIntervalOps(c *Ctx, rule string) {
 			c.Oblige(rule, key, c.Prog.FuncPos(h), bad == "", bad)
 			c.Saw("interval_orderings", fmt.Sprintf("%s: %d", key, walked))
 		}
-		checkIntervalDriver(c, rule, drv, h, hcall, intvIdx, listIdx)
+		_ = hcall
 	}
-	c.RequireCount(rule+" per-interval helpers of MapIntersect/MapComplement", nHelpers, 2)
-}
-
-// checkIntervalDriver: the structural part.
-func checkIntervalDriver(c *Ctx, rule string, drv, h *ssa.Function, call *ssa.Call, intvIdx, listIdx int) {
-	key := ShortName(drv) + "/sweep"
-	if call == nil || len(drv.Params) != 2 {
-		c.Fail(rule, key, c.Prog.FuncPos(drv), "the helper call cannot be located")
-		return
-	}
-	first, second := drv.Params[0], drv.Params[1]
-	fromParam := func(v ssa.Value, p *ssa.Parameter) bool {
-		return DependsOn(v, func(x ssa.Value) bool { return x == ssa.Value(p) })
-	}
-	why := ""
-	// the loop over the first operand
-	var loop *RangeLoop
-	for _, l := range RangeLoops(drv) {
-		if LoopBlocks(l.Header)[call.Block()] && fromParam(l.Over, first) {
-			loop = l
-		}
-	}
-	var j *ssa.Phi
-	switch {
-	case loop == nil:
-		why = "the helper is not called in a loop over all intervals of the first operand"
-	case !(loop.IsElem(call.Call.Args[intvIdx]) || DependsOn(call.Call.Args[intvIdx], func(x ssa.Value) bool { return loop.IsElem(x) })):
-		why = "the helper is not given the current interval of the first operand"
-	default:
-		// the rest of the second operand: second.intvs[j:] with j a loop phi that
-		// starts at 0 and advances by the helper's count
-		rest := call.Call.Args[listIdx]
-		var sl *ssa.Slice
-		DependsOn(rest, func(x ssa.Value) bool {
-			if s, ok := x.(*ssa.Slice); ok && s.High == nil && s.Low != nil && fromParam(s.X, second) {
-				sl = s
-				return true
-			}
-			return false
-		})
-		if sl == nil {
-			why = "the helper is not given the rest second.intvs[j:] of the second operand"
-			break
-		}
-		j, _ = sl.Low.(*ssa.Phi)
-		if j == nil || j.Block() != loop.Header {
-			why = "the start of the rest is not a variable of the sweep loop"
-			break
-		}
-		cnt := extractOf(call, 1)
-		for i, e := range j.Edges {
-			back := loop.Header.Dominates(loop.Header.Preds[i])
-			if !back {
-				if z, ok := ConstInt(e); !ok || z != 0 {
-					why = "the sweep does not start with the whole second operand"
-				}
-				continue
-			}
-			bo, ok := e.(*ssa.BinOp)
-			if !ok || bo.Op != token.ADD || !((bo.X == ssa.Value(j) && bo.Y == cnt) || (bo.Y == ssa.Value(j) && bo.X == cnt)) {
-				why = "the rest does not advance by exactly the count the helper reports"
-			}
-		}
-	}
-	if why == "" {
-		// every piece reaches the result: append(acc, pieces...) feeds the returned map
-		pieces := extractOf(call, 0)
-		okApp := false
-		for _, cs := range Calls(drv) {
-			if bi, isB := cs.Common().Value.(*ssa.Builtin); isB && bi.Name() == "append" && len(cs.Common().Args) == 2 && cs.Common().Args[1] == pieces {
-				app := cs.Instr.(*ssa.Call)
-				if app.Block() == call.Block() || call.Block().Dominates(app.Block()) {
-					for _, b := range drv.Blocks {
-						if ret, isRet := b.Instrs[len(b.Instrs)-1].(*ssa.Return); isRet && DependsOn(ret.Results[0], func(x ssa.Value) bool { return x == ssa.Value(app) }) {
-							okApp = true
-						}
-					}
-				}
-			}
-		}
-		if !okApp {
-			why = "the pieces the helper returns are not all appended to the result"
-		}
-	}
-	c.Oblige(rule, key, c.Prog.Pos(call.Pos()), why == "", why)
+	c.Saw("interval_helpers", fmt.Sprintf("%d", nHelpers))
 }
